@@ -349,6 +349,9 @@ class Interp:
         self.calls = []           # opaque / noted calls: (callee name, args values, line, loop)
 
     # -- fields -----------------------------------------------------------------
+    def field_names(self):
+        return [f["name"] for f in (self.rec or {}).get("fields", [])]
+
     def field(self, cls, name):
         key = name
         if key in self.heap:
